@@ -170,8 +170,39 @@ impl Prop for Texts {
         tier.pick(600_000, 40_000_000)
     }
     fn generate(&self, g: &mut Gen) -> TextCase {
-        let text = match g.weighted(&[3, 4, 3]) {
+        let text = match g.weighted(&[3, 4, 3, 1]) {
             0 => gen_soup(g),
+            3 => {
+                // names at the length limit: a long $ORIGIN, then relative and
+                // absolute owners and RDATA names that reach 250..260 octets
+                // only once the origin is added
+                let lab = |n: usize, c: char| c.to_string().repeat(n.clamp(1, 63));
+                let origin_len = g.range(180, 250);
+                let mut origin = String::new();
+                let mut left = origin_len;
+                while left > 1 {
+                    let l = left.min(64) - 1;
+                    origin.push_str(&lab(l, 'o'));
+                    origin.push('.');
+                    left -= l + 1;
+                }
+                let rel = g.range(1, 80);
+                let rel_name = if rel > 63 { format!("{}.{}", lab(63, 'r'), lab(rel - 63, 'r')) } else { lab(rel, 'r') };
+                let mut t = String::new();
+                if g.chance(1, 4) {
+                    t.push_str("@ IN SOA ns. admin. 1 2 3 4 5\n");
+                }
+                t.push_str(&format!("$ORIGIN {origin}\n"));
+                match g.below(4) {
+                    0 => t.push_str(&format!("{rel_name} 300 IN A 1.2.3.4\n")),
+                    1 => t.push_str(&format!("*.{rel_name} 300 IN A 1.2.3.4\n")),
+                    2 => t.push_str(&format!("a 300 IN NS {rel_name}\n")),
+                    _ => t.push_str(&format!("a 300 IN MX 10 {rel_name}\n$ORIGIN {rel_name}\nb 300 IN A 1.2.3.4\n")),
+                }
+                // the same names as hosts(5) text on a second line (hosts names are relative to the root)
+                t.push_str(&format!("1.2.3.4 {rel_name}.{origin}\n"));
+                if g.chance(1, 3) { mutate(g, &t) } else { t }
+            }
             1 => {
                 let zone = super::c11::gen_denotation(g, true);
                 let (t, _) = render(g, &zone, &RenderOpts { layout_noise: true, inheritance: true, origin_changes: true });
